@@ -1,15 +1,703 @@
 /-
-C15 — characterisation results do not depend on the units the isotherm is stored in.  (stub; theorems are being added)
+C15 — characterisation results do not depend on the units the isotherm is stored in.
 -/
 import PgVerif.Gen.CharR
+import PgVerif.Gen.ModelsR
 import PgVerif.Model.Linear
+import PgVerif.Model.Meso
+import PgVerif.Model.Micro
+import PgVerif.Props.C14
+import Mathlib.Tactic
 
 namespace PgVerif.Props.C15
-open PgVerif.Gen.CharR
+open PgVerif.Gen.CharR PgVerif.Model.Linear
+open PgVerif.Props.C14 (sum_nil sum_cons sum_map_mul_left mean_map_scale ols_scale length_cast_ne_zero)
 
-/-- multiplying all loadings by `k` divides the BET transform by `k` (the BET plot is homogeneous of degree -1) -/
+/-! ## B3. least squares: homogeneity and translation -/
+section OlsAlgebra
+variable {α : Type} [Field α]
+
+lemma sum_zipWith_mul_left (k : α) (F : α → α → α) (xs ys : List α) :
+    sum (List.zipWith (fun x y => k * F x y) xs ys) = k * sum (List.zipWith F xs ys) := by
+  induction xs generalizing ys with
+  | nil => simp
+  | cons x xs ih =>
+    cases ys with
+    | nil => simp
+    | cons y ys => simp only [List.zipWith_cons_cons, sum_cons, ih]; ring
+
+lemma sum_map_add_const (c : α) (ys : List α) :
+    sum (ys.map fun y => y + c) = sum ys + c * (ys.length : α) := by
+  induction ys with
+  | nil => simp
+  | cons y ys ih => simp only [List.map_cons, sum_cons, ih, List.length_cons]; push_cast; ring
+
+/-- covariance with scaled abscissae -/
+lemma sxy_scale_left (k : α) (xs ys : List α) :
+    sxy (xs.map fun x => k * x) ys = k * sxy xs ys := by
+  unfold sxy
+  rw [mean_map_scale, List.zipWith_map_left, ← sum_zipWith_mul_left]
+  congr 2
+  funext x y
+  ring
+
+lemma sxy_scale_right (k : α) (xs ys : List α) :
+    sxy xs (ys.map fun y => k * y) = k * sxy xs ys := by
+  unfold sxy
+  rw [mean_map_scale, List.zipWith_map_right, ← sum_zipWith_mul_left]
+  congr 2
+  funext x y
+  ring
+
+variable [CharZero α]
+
+lemma mean_map_add_const (c : α) (ys : List α) (h : ys ≠ []) :
+    mean (ys.map fun y => y + c) = mean ys + c := by
+  have hl := length_cast_ne_zero h
+  unfold mean
+  rw [sum_map_add_const, List.length_map]
+  field_simp
+
+lemma sxy_shift_right (c : α) (xs ys : List α) (h : ys ≠ []) :
+    sxy xs (ys.map fun y => y + c) = sxy xs ys := by
+  unfold sxy
+  rw [mean_map_add_const c ys h, List.zipWith_map_right]
+  congr 2
+  funext x y
+  ring
+
+/-- **B3a.** Scaling the ordinates (loadings) by `k` scales slope and intercept by `k` (C14 `ols_scale`, restated). -/
+theorem ols_scale_y (k : α) (xs ys : List α) :
+    ols xs (ys.map fun y => k * y) = (k * (ols xs ys).1, k * (ols xs ys).2) :=
+  ols_scale k xs ys
+
+/-- **B3b.** Adding a constant `c` to all ordinates leaves the slope and adds `c` to the intercept.
+Guard: `ys ≠ []` (for the empty list the totalised mean is `0` and nothing is added); no condition on the abscissae. -/
+theorem ols_shift (c : α) (xs ys : List α) (h : ys ≠ []) :
+    ols xs (ys.map fun y => y + c) = ((ols xs ys).1, (ols xs ys).2 + c) := by
+  unfold ols
+  simp only [sxy_shift_right c xs ys h, mean_map_add_const c ys h, Prod.mk.injEq, true_and]
+  ring
+
+omit [CharZero α] in
+/-- **B3c.** Scaling the abscissae by `k ≠ 0` divides the slope by `k` and leaves the intercept unchanged. -/
+theorem ols_scale_x (k : α) (hk : k ≠ 0) (xs ys : List α) :
+    ols (xs.map fun x => k * x) ys = ((ols xs ys).1 / k, (ols xs ys).2) := by
+  have h1 : sxy (xs.map fun x => k * x) ys = k * sxy xs ys := sxy_scale_left k xs ys
+  have h2 : sxy (xs.map fun x => k * x) (xs.map fun x => k * x) = k * (k * sxy xs xs) := by
+    rw [sxy_scale_left, sxy_scale_right]
+  unfold ols
+  simp only [h1, h2, mean_map_scale, Prod.mk.injEq]
+  by_cases hx : sxy xs xs = 0
+  · simp [hx]
+  · constructor <;> field_simp
+
+end OlsAlgebra
+
+/-! ## B4. BET and Langmuir: homogeneity in the loading -/
+section BET
+
+/-- the Rouquerol transform `n (1 - p)` is homogeneous of degree 1 in the loading -/
+theorem roq_transform_homogeneous (p n k : ℝ) : roq_transform p (k * n) = k * roq_transform p n := by
+  unfold roq_transform; ring
+
+/-- **B4a.** multiplying all loadings by `k ≠ 0` divides the BET transform by `k`
+(guard `k ≠ 0`: at `k = 0` both sides are `0` only by the convention `x / 0 = 0`). -/
 theorem bet_transform_homogeneous (p n k : ℝ) (hk : k ≠ 0) : bet_transform p (k * n) = bet_transform p n / k := by
   unfold bet_transform roq_transform
   field_simp
+
+/-- the vectorised BET transform of scaled loadings -/
+lemma zipWith_bet_scale (k : ℝ) (hk : k ≠ 0) (ps ns : List ℝ) :
+    List.zipWith bet_transform ps (ns.map fun n => k * n)
+      = (List.zipWith bet_transform ps ns).map fun y => k⁻¹ * y := by
+  rw [List.zipWith_map_right, List.map_zipWith]
+  congr 2
+  funext p n
+  rw [bet_transform_homogeneous p n k hk]; ring
+
+/-- **B4b.** the BET regression line of the scaled isotherm: slope and intercept are divided by `k`. -/
+theorem bet_ols_scale (k : ℝ) (hk : k ≠ 0) (xs ps ns : List ℝ) :
+    ols xs (List.zipWith bet_transform ps (ns.map fun n => k * n))
+      = ((ols xs (List.zipWith bet_transform ps ns)).1 / k, (ols xs (List.zipWith bet_transform ps ns)).2 / k) := by
+  rw [zipWith_bet_scale k hk, ols_scale]
+  simp only [Prod.mk.injEq]
+  constructor <;> ring
+
+/-- **B4c.** BET results from slope/`k`, intercept/`k` (`k ≠ 0`; `intercept ≠ 0` excludes the degenerate line through
+the origin where `c` is undefined): the `C` constant and the monolayer pressure are unchanged, the monolayer loading
+and the area are multiplied by `k`.  (generated argument orders: `bet_c_const slope intercept`,
+`bet_n_monolayer intercept c_const`, `bet_area cross_section n_monolayer`.) -/
+theorem bet_results_scale (s i cs k : ℝ) (hk : k ≠ 0) (_hi : i ≠ 0) :
+    bet_c_const (s / k) (i / k) = bet_c_const s i ∧
+    bet_n_monolayer (i / k) (bet_c_const (s / k) (i / k)) = k * bet_n_monolayer i (bet_c_const s i) ∧
+    bet_p_monolayer (bet_c_const (s / k) (i / k)) = bet_p_monolayer (bet_c_const s i) ∧
+    bet_area cs (bet_n_monolayer (i / k) (bet_c_const (s / k) (i / k)))
+      = k * bet_area cs (bet_n_monolayer i (bet_c_const s i)) := by
+  have hc : bet_c_const (s / k) (i / k) = bet_c_const s i := by
+    unfold bet_c_const
+    rw [div_div_div_cancel_right₀ hk]
+  have hn : bet_n_monolayer (i / k) (bet_c_const s i) = k * bet_n_monolayer i (bet_c_const s i) := by
+    unfold bet_n_monolayer
+    field_simp
+  refine ⟨hc, ?_, ?_, ?_⟩
+  · rw [hc, hn]
+  · rw [hc]
+  · rw [hc, hn]; unfold bet_area; ring
+
+/-- the BET area is linear in the monolayer loading -/
+theorem bet_area_homogeneous (cs nm k : ℝ) : bet_area cs (k * nm) = k * bet_area cs nm := by
+  unfold bet_area; ring
+
+/-- **B4d.** BET end to end: fitting the same window of the scaled isotherm gives the same `C` and `p_monolayer` and
+`k` times the monolayer loading and area. Guard: the unscaled intercept is not `0`. -/
+theorem bet_end_to_end_scale (k cs : ℝ) (hk : k ≠ 0) (xs ps ns : List ℝ)
+    (hi : (ols xs (List.zipWith bet_transform ps ns)).2 ≠ 0) :
+    let r := ols xs (List.zipWith bet_transform ps ns)
+    let r' := ols xs (List.zipWith bet_transform ps (ns.map fun n => k * n))
+    bet_c_const r'.1 r'.2 = bet_c_const r.1 r.2 ∧
+    bet_n_monolayer r'.2 (bet_c_const r'.1 r'.2) = k * bet_n_monolayer r.2 (bet_c_const r.1 r.2) ∧
+    bet_p_monolayer (bet_c_const r'.1 r'.2) = bet_p_monolayer (bet_c_const r.1 r.2) ∧
+    bet_area cs (bet_n_monolayer r'.2 (bet_c_const r'.1 r'.2))
+      = k * bet_area cs (bet_n_monolayer r.2 (bet_c_const r.1 r.2)) := by
+  intro r r'
+  have hr : r' = (r.1 / k, r.2 / k) := bet_ols_scale k hk xs ps ns
+  rw [hr]
+  exact bet_results_scale r.1 r.2 cs k hk hi
+
+/-- **B4e.** Langmuir transform `p / n`: homogeneous of degree −1 in the loading (`k ≠ 0`). -/
+theorem langmuir_transform_homogeneous (p n k : ℝ) (hk : k ≠ 0) :
+    langmuir_transform p (k * n) = langmuir_transform p n / k := by
+  unfold langmuir_transform
+  field_simp
+
+lemma zipWith_lang_scale (k : ℝ) (hk : k ≠ 0) (ps ns : List ℝ) :
+    List.zipWith langmuir_transform ps (ns.map fun n => k * n)
+      = (List.zipWith langmuir_transform ps ns).map fun y => k⁻¹ * y := by
+  rw [List.zipWith_map_right, List.map_zipWith]
+  congr 2
+  funext p n
+  rw [langmuir_transform_homogeneous p n k hk]; ring
+
+theorem langmuir_ols_scale (k : ℝ) (hk : k ≠ 0) (xs ps ns : List ℝ) :
+    ols xs (List.zipWith langmuir_transform ps (ns.map fun n => k * n))
+      = ((ols xs (List.zipWith langmuir_transform ps ns)).1 / k,
+         (ols xs (List.zipWith langmuir_transform ps ns)).2 / k) := by
+  rw [zipWith_lang_scale k hk, ols_scale]
+  simp only [Prod.mk.injEq]
+  constructor <;> ring
+
+/-- **B4f.** Langmuir results from slope/`k`, intercept/`k` (`k ≠ 0`, `slope ≠ 0`): monolayer loading and area are
+multiplied by `k`, the Langmuir constant is unchanged.
+(generated argument orders: `lang_const intercept n_monolayer`, `lang_area cross_section n_monolayer`.) -/
+theorem langmuir_results_scale (s i cs k : ℝ) (hk : k ≠ 0) (_hs : s ≠ 0) :
+    lang_n_monolayer (s / k) = k * lang_n_monolayer s ∧
+    lang_const (i / k) (lang_n_monolayer (s / k)) = lang_const i (lang_n_monolayer s) ∧
+    lang_area cs (lang_n_monolayer (s / k)) = k * lang_area cs (lang_n_monolayer s) := by
+  have hn : lang_n_monolayer (s / k) = k * lang_n_monolayer s := by
+    unfold lang_n_monolayer; field_simp
+  refine ⟨hn, ?_, ?_⟩
+  · rw [hn]; unfold lang_const
+    have : i / k * (k * lang_n_monolayer s) = i * lang_n_monolayer s := by field_simp
+    rw [this]
+  · rw [hn]; unfold lang_area; ring
+
+theorem langmuir_end_to_end_scale (k cs : ℝ) (hk : k ≠ 0) (xs ps ns : List ℝ)
+    (hs : (ols xs (List.zipWith langmuir_transform ps ns)).1 ≠ 0) :
+    let r := ols xs (List.zipWith langmuir_transform ps ns)
+    let r' := ols xs (List.zipWith langmuir_transform ps (ns.map fun n => k * n))
+    lang_n_monolayer r'.1 = k * lang_n_monolayer r.1 ∧
+    lang_const r'.2 (lang_n_monolayer r'.1) = lang_const r.2 (lang_n_monolayer r.1) ∧
+    lang_area cs (lang_n_monolayer r'.1) = k * lang_area cs (lang_n_monolayer r.1) := by
+  intro r r'
+  have hr : r' = (r.1 / k, r.2 / k) := langmuir_ols_scale k hk xs ps ns
+  rw [hr]
+  exact langmuir_results_scale r.1 r.2 cs k hk hs
+
+end BET
+
+/-! ## B6. Dubinin–Radushkevich / Dubinin–Astakhov -/
+section DA
+
+/-- **B6a.** `log (k n M/ρ) = log k + log (n M/ρ)`; guards `0 < k` and `n M/ρ ≠ 0` (at `0` the totalised `log 0 = 0`
+would break additivity). -/
+theorem log_v_adj_scale (k n M ρ : ℝ) (hk : 0 < k) (hv : n * M / ρ ≠ 0) :
+    log_v_adj (k * n) M ρ = Real.log k + log_v_adj n M ρ := by
+  unfold log_v_adj
+  rw [← Real.log_mul hk.ne' hv]
+  congr 1; ring
+
+lemma map_log_v_adj_scale (k M ρ : ℝ) (hk : 0 < k) (ns : List ℝ) (hv : ∀ n ∈ ns, n * M / ρ ≠ 0) :
+    (ns.map fun n => k * n).map (fun n => log_v_adj n M ρ)
+      = (ns.map fun n => log_v_adj n M ρ).map fun y => y + Real.log k := by
+  rw [List.map_map, List.map_map]
+  apply List.map_congr_left
+  intro n hn
+  simp only [Function.comp]
+  rw [log_v_adj_scale k n M ρ hk (hv n hn)]; ring
+
+/-- **B6b.** the DA regression of the scaled isotherm: same slope, intercept `+ log k`
+(guards: `0 < k`, at least one point, every adsorbed volume `n M/ρ` non-zero). -/
+theorem da_ols_scale (k M ρ : ℝ) (hk : 0 < k) (xs ns : List ℝ) (hne : ns ≠ [])
+    (hv : ∀ n ∈ ns, n * M / ρ ≠ 0) :
+    ols xs ((ns.map fun n => k * n).map fun n => log_v_adj n M ρ)
+      = ((ols xs (ns.map fun n => log_v_adj n M ρ)).1,
+         (ols xs (ns.map fun n => log_v_adj n M ρ)).2 + Real.log k) := by
+  rw [map_log_v_adj_scale k M ρ hk ns hv]
+  exact ols_shift _ _ _ (by simpa using hne)
+
+/-- **B6c.** micropore volume is multiplied by `k` when the intercept is shifted by `log k` (`0 < k`);
+the characteristic potential depends on the slope only and is unchanged. -/
+theorem da_results_scale (k T e s i : ℝ) (hk : 0 < k) :
+    da_microp_volume (i + Real.log k) = k * da_microp_volume i ∧
+    da_potential T e s = da_potential T e s := by
+  refine ⟨?_, rfl⟩
+  unfold da_microp_volume
+  rw [Real.exp_add, Real.exp_log hk]; ring
+
+/-- **B6d.** DA end to end. -/
+theorem da_end_to_end_scale (k M ρ T e : ℝ) (hk : 0 < k) (xs ns : List ℝ) (hne : ns ≠ [])
+    (hv : ∀ n ∈ ns, n * M / ρ ≠ 0) :
+    let r := ols xs (ns.map fun n => log_v_adj n M ρ)
+    let r' := ols xs ((ns.map fun n => k * n).map fun n => log_v_adj n M ρ)
+    da_microp_volume r'.2 = k * da_microp_volume r.2 ∧ da_potential T e r'.1 = da_potential T e r.1 := by
+  intro r r'
+  have hr : r' = (r.1, r.2 + Real.log k) := da_ols_scale k M ρ hk xs ns hne hv
+  rw [hr]
+  exact ⟨(da_results_scale k T e r.1 r.2 hk).1, rfl⟩
+
+end DA
+
+/-! ## B5. t-plot and alpha-s -/
+section TPlot
+
+/-- **B5a.** t-plot / alpha-s parameter formulas are linear in slope resp. intercept. -/
+theorem tplot_results_scale (M ρ s i k : ℝ) :
+    tplot_area M ρ (k * s) = k * tplot_area M ρ s ∧
+    tplot_adsorbed_volume M ρ (k * i) = k * tplot_adsorbed_volume M ρ i ∧
+    alphas_adsorbed_volume M ρ (k * i) = k * alphas_adsorbed_volume M ρ i := by
+  unfold tplot_area tplot_adsorbed_volume alphas_adsorbed_volume
+  refine ⟨by ring, by ring, by ring⟩
+
+/-- **B5b.** t-plot end to end: the thickness curve `ts` depends on the pressure only; scaling the loading by `k`
+scales area and adsorbed volume by `k`. -/
+theorem tplot_end_to_end_scale (M ρ k : ℝ) (ts ns : List ℝ) :
+    let r := ols ts ns
+    let r' := ols ts (ns.map fun n => k * n)
+    tplot_area M ρ r'.1 = k * tplot_area M ρ r.1 ∧
+    tplot_adsorbed_volume M ρ r'.2 = k * tplot_adsorbed_volume M ρ r.2 := by
+  intro r r'
+  have hr : r' = (k * r.1, k * r.2) := ols_scale k ts ns
+  rw [hr]
+  exact ⟨(tplot_results_scale M ρ r.1 r.2 k).1, (tplot_results_scale M ρ r.1 r.2 k).2.1⟩
+
+/-- **B5c.** the alpha-s curve is unchanged when reference loading and reducing loading are both scaled by `k ≠ 0`. -/
+theorem alphas_curve_scale (ref apt k : ℝ) (hk : k ≠ 0) :
+    alphas_curve (k * ref) (k * apt) = alphas_curve ref apt := by
+  unfold alphas_curve
+  rw [mul_div_mul_left _ _ hk]
+
+lemma map_alphas_curve_scale (refs : List ℝ) (apt k : ℝ) (hk : k ≠ 0) :
+    (refs.map fun x => k * x).map (fun x => alphas_curve x (k * apt)) = refs.map fun x => alphas_curve x apt := by
+  rw [List.map_map]
+  apply List.map_congr_left
+  intro x _
+  exact alphas_curve_scale x apt k hk
+
+/-- **B5d.** `alphas_area` is linear in the reference area and in the slope, and of degree −1 in the reducing loading
+(generated argument order `alphas_area alpha_s_point reference_area slope`). -/
+theorem alphas_area_scale (apt Aref s k : ℝ) (hk : k ≠ 0) :
+    alphas_area apt (k * Aref) s = k * alphas_area apt Aref s ∧
+    alphas_area apt Aref (k * s) = k * alphas_area apt Aref s ∧
+    alphas_area (k * apt) Aref (k * s) = alphas_area apt Aref s := by
+  unfold alphas_area
+  refine ⟨by ring, by ring, ?_⟩
+  by_cases ha : apt = 0
+  · simp [ha]
+  · field_simp
+
+/-- **B5e.** alpha-s end to end.  Sample loading scaled by `k`, reference (loading and reducing loading) scaled by
+`j ≠ 0` (e.g. stored in other units *without* conversion by the accessor – a pure rescaling): the alpha-s curve is
+unchanged, area and adsorbed volume are multiplied by `k / j · j = k`… precisely: slope, intercept scale by `k`;
+the area by `k / j` (it is `A_ref / n_ref(0.4) · slope`). -/
+theorem alphas_end_to_end_scale (M ρ Aref apt k j : ℝ) (hj : j ≠ 0) (refs ns : List ℝ) :
+    let curve := refs.map fun x => alphas_curve x apt
+    let curve' := (refs.map fun x => j * x).map fun x => alphas_curve x (j * apt)
+    let r := ols curve ns
+    let r' := ols curve' (ns.map fun n => k * n)
+    curve' = curve ∧
+    alphas_area (j * apt) Aref r'.1 = k / j * alphas_area apt Aref r.1 ∧
+    alphas_adsorbed_volume M ρ r'.2 = k * alphas_adsorbed_volume M ρ r.2 := by
+  intro curve curve' r r'
+  have hc : curve' = curve := map_alphas_curve_scale refs apt j hj
+  have hr : r' = (k * r.1, k * r.2) := by
+    change ols curve' _ = _
+    rw [hc]; exact ols_scale k curve ns
+  refine ⟨hc, ?_, ?_⟩
+  · rw [hr]; unfold alphas_area
+    by_cases ha : apt = 0
+    · simp [ha]
+    · field_simp
+  · rw [hr]; exact (tplot_results_scale M ρ r.1 r.2 k).2.2
+
+end TPlot
+
+/-! ## B9. isosteric enthalpy: pressure-unit invariance -/
+section Enthalpy
+
+lemma map_log_scale (a : ℝ) (ha : 0 < a) (ps : List ℝ) (hp : ∀ p ∈ ps, 0 < p) :
+    (ps.map fun p => Real.log (a * p)) = (ps.map fun p => Real.log p).map fun y => y + Real.log a := by
+  rw [List.map_map]
+  apply List.map_congr_left
+  intro p hpm
+  simp only [Function.comp]
+  rw [Real.log_mul ha.ne' (hp p hpm).ne']; ring
+
+/-- **B9a.** the regression of `ln p` against `1/T` after all pressures are multiplied by a unit factor `a > 0`
+(pressures positive, at least one point): same slope, intercept `+ ln a`. -/
+theorem enthalpy_ols_pressure_unit (a : ℝ) (ha : 0 < a) (xs ps : List ℝ) (hne : ps ≠ []) (hp : ∀ p ∈ ps, 0 < p) :
+    ols xs (ps.map fun p => Real.log (a * p))
+      = ((ols xs (ps.map fun p => Real.log p)).1, (ols xs (ps.map fun p => Real.log p)).2 + Real.log a) := by
+  rw [map_log_scale a ha ps hp]
+  exact ols_shift _ _ _ (by simpa using hne)
+
+/-- **B9b.** the isosteric enthalpy (a function of the slope only) does not depend on the pressure unit. -/
+theorem isosteric_enthalpy_pressure_unit (a : ℝ) (ha : 0 < a) (Ts ps : List ℝ) (hne : ps ≠ [])
+    (hp : ∀ p ∈ ps, 0 < p) :
+    isosteric_enthalpy (ols (Ts.map isosteric_inv_t) (ps.map fun p => Real.log (a * p))).1
+      = isosteric_enthalpy (ols (Ts.map isosteric_inv_t) (ps.map fun p => Real.log p)).1 := by
+  rw [enthalpy_ols_pressure_unit a ha _ ps hne hp]
+
+end Enthalpy
+
+/-! ## C10. results in the isotherm's own units: the initial Henry constant -/
+section Henry
+open PgVerif.Gen.R
+
+/-- **C10a.** the Henry line in units `(a·p, b·n)` has constant `b K / a` (`a ≠ 0`). -/
+theorem henry_constant_units (K a b p : ℝ) (ha : a ≠ 0) :
+    Henry_loading (b * K / a) (a * p) = b * Henry_loading K p := by
+  unfold Henry_loading
+  field_simp
+
+/-- sum of squared residuals of the Henry model on the data `(ps, ns)` -/
+noncomputable def henrySSE (K : ℝ) (ps ns : List ℝ) : ℝ :=
+  sum (List.zipWith (fun p n => (Henry_loading K p - n) ^ 2) ps ns)
+
+lemma henrySSE_units (K' a b : ℝ) (hb : b ≠ 0) (ps ns : List ℝ) :
+    henrySSE K' (ps.map fun p => a * p) (ns.map fun n => b * n) = b ^ 2 * henrySSE (K' * a / b) ps ns := by
+  unfold henrySSE
+  rw [List.zipWith_map, ← sum_zipWith_mul_left]
+  congr 2
+  funext p n
+  unfold Henry_loading
+  field_simp
+
+/-- **C10b.** least squares: if `K` minimises `Σ (K p_i − n_i)²` then `b K / a` minimises `Σ (K' a p_i − b n_i)²`
+(`a ≠ 0`, `b ≠ 0`): the fitted Henry constant changes by exactly the unit factors `b / a`. -/
+theorem henry_constant_units_lsq (K a b : ℝ) (ha : a ≠ 0) (hb : b ≠ 0) (ps ns : List ℝ)
+    (hmin : ∀ K', henrySSE K ps ns ≤ henrySSE K' ps ns) :
+    ∀ K', henrySSE (b * K / a) (ps.map fun p => a * p) (ns.map fun n => b * n)
+        ≤ henrySSE K' (ps.map fun p => a * p) (ns.map fun n => b * n) := by
+  intro K'
+  rw [henrySSE_units _ a b hb, henrySSE_units _ a b hb]
+  have e : b * K / a * a / b = K := by field_simp
+  rw [e]
+  exact mul_le_mul_of_nonneg_left (hmin _) (sq_nonneg b)
+
+/-- and conversely (the correspondence of minimisers is a bijection) -/
+theorem henry_constant_units_lsq_conv (K a b : ℝ) (ha : a ≠ 0) (hb : b ≠ 0) (ps ns : List ℝ)
+    (hmin : ∀ K', henrySSE (b * K / a) (ps.map fun p => a * p) (ns.map fun n => b * n)
+        ≤ henrySSE K' (ps.map fun p => a * p) (ns.map fun n => b * n)) :
+    ∀ K', henrySSE K ps ns ≤ henrySSE K' ps ns := by
+  intro K'
+  have h := hmin (b * K' / a)
+  rw [henrySSE_units _ a b hb, henrySSE_units _ a b hb] at h
+  have e : ∀ x : ℝ, b * x / a * a / b = x := fun x => by field_simp
+  rw [e, e] at h
+  exact le_of_mul_le_mul_left h (by positivity)
+
+end Henry
+
+/-! ## B7. mesopore recurrences (pyGAPS-DH, BJH, Dollimore–Heal): linear in the adsorbed volumes -/
+section Meso
+open PgVerif.Model.Meso
+variable {α : Type} [Field α]
+
+/-- scaling of an output pair `(pore_volume, pore_area)` -/
+def scalePair (k : α) (x : α × α) : α × α := (k * x.1, k * x.2)
+/-- scaling of the area entry of a `(radius, area)` record -/
+def scaleSnd (k : α) (x : α × α) : α × α := (x.1, k * x.2)
+def scaleDh (k : α) (r : DhRow α) : DhRow α := { r with dV := k * r.dV }
+def scaleR (k : α) (r : RRow α) : RRow α := { r with dV := k * r.dV }
+
+lemma diffNeg_scale (k : α) : ∀ l : List α, diffNeg (l.map fun v => k * v) = (diffNeg l).map fun v => k * v
+  | [] => rfl
+  | [_] => rfl
+  | a :: b :: r => by
+    have ih := diffNeg_scale k (b :: r)
+    simp only [List.map_cons] at ih ⊢
+    simp only [diffNeg, List.map_cons, ih]
+    congr 1; ring
+
+lemma zip5_scale (k : α) : ∀ (a b c d e : List α),
+    zip5 (a.map fun v => k * v) b c d e = (zip5 a b c d e).map (scaleDh k)
+  | [], _, _, _, _ => by simp [zip5]
+  | _ :: _, [], _, _, _ => by simp [zip5]
+  | _ :: _, _ :: _, [], _, _ => by simp [zip5]
+  | _ :: _, _ :: _, _ :: _, [], _ => by simp [zip5]
+  | _ :: _, _ :: _, _ :: _, _ :: _, [] => by simp [zip5]
+  | a :: as, b :: bs, c :: cs, d :: ds, e :: es => by
+    simp only [List.map_cons, zip5, zip5_scale k as bs cs ds es, scaleDh]
+
+lemma zipR_scale (k : α) : ∀ (a b c d e : List α),
+    zipR (a.map fun v => k * v) b c d e = (zipR a b c d e).map (scaleR k)
+  | [], _, _, _, _ => by simp [zipR]
+  | _ :: _, [], _, _, _ => by simp [zipR]
+  | _ :: _, _ :: _, [], _, _ => by simp [zipR]
+  | _ :: _, _ :: _, _ :: _, [], _ => by simp [zipR]
+  | _ :: _, _ :: _, _ :: _, _ :: _, [] => by simp [zipR]
+  | a :: as, b :: bs, c :: cs, d :: ds, e :: es => by
+    simp only [List.map_cons, zipR, zipR_scale k as bs cs ds es, scaleR]
+
+/-- **B7a.** the pyGAPS-DH loop is linear: volume increments and the running area correction scaled by `k` ⇒ every
+pore volume and pore area scaled by `k` (generalised accumulator). -/
+theorem dhLoop_scale (c : ℕ) (k : α) (rows : List (DhRow α)) (acc acc' : α) (hacc : acc' = k * acc) :
+    dhLoop c (rows.map (scaleDh k)) acc' = (dhLoop c rows acc).map (scalePair k) := by
+  induction rows generalizing acc acc' with
+  | nil => rfl
+  | cons r rest ih =>
+    subst hacc
+    simp only [List.map_cons, dhLoop, scaleDh, scalePair]
+    congr 1
+    · simp only [Prod.mk.injEq]; constructor <;> ring
+    · apply ih; ring
+
+/-- the `sum_area_factor` of the BJH loop is linear in the recorded pore areas -/
+lemma bjh_foldl_scale (k t : α) (done : List (α × α)) (s s' : α) (hs : s' = k * s) :
+    (done.map (scaleSnd k)).foldl (fun s (xa : α × α) => s + (xa.1 - t) / xa.1 * xa.2) s'
+      = k * done.foldl (fun s (xa : α × α) => s + (xa.1 - t) / xa.1 * xa.2) s := by
+  induction done generalizing s s' with
+  | nil => simpa using hs
+  | cons x rest ih =>
+    simp only [List.map_cons, List.foldl_cons]
+    apply ih
+    subst hs
+    simp only [scaleSnd]; ring
+
+/-- **B7b.** the BJH loop is linear (generalised list of already processed intervals). -/
+theorem bjhLoop_scale (k : α) (rows : List (RRow α)) (done : List (α × α)) :
+    bjhLoop (rows.map (scaleR k)) (done.map (scaleSnd k)) = (bjhLoop rows done).map (scalePair k) := by
+  induction rows generalizing done with
+  | nil => rfl
+  | cons r rest ih =>
+    simp only [List.map_cons, bjhLoop, scaleR, scalePair]
+    rw [bjh_foldl_scale k r.avgT done 0 0 (by ring)]
+    congr 1
+    · simp only [Prod.mk.injEq]; constructor <;> ring
+    · have := ih (done ++ [(r.avgR, 2 * ((r.dV - r.dT * (List.foldl
+          (fun s (xa : α × α) => s + (xa.1 - r.avgT) / xa.1 * xa.2) 0 done) * (1 / 1000)) * r.ratio) / r.avgR * 1000)])
+      rw [← this, List.map_append]
+      congr 2
+      simp only [List.map_cons, List.map_nil, scaleSnd, List.cons.injEq, Prod.mk.injEq, and_true, true_and]
+      ring
+
+/-- **B7c.** the Dollimore–Heal loop is linear (both generalised accumulators). -/
+theorem dollimoreLoop_scale (k : α) (rows : List (RRow α)) (a b a' b' : α) (ha : a' = k * a) (hb : b' = k * b) :
+    dollimoreLoop (rows.map (scaleR k)) a' b' = (dollimoreLoop rows a b).map (scalePair k) := by
+  induction rows generalizing a b a' b' with
+  | nil => rfl
+  | cons r rest ih =>
+    subst ha hb
+    simp only [List.map_cons, dollimoreLoop, scaleR, scalePair]
+    congr 1
+    · simp only [Prod.mk.injEq]; constructor <;> ring
+    · apply ih <;> ring
+
+lemma map_fst_scalePair (k : α) (out : List (α × α)) :
+    (out.map (scalePair k)).map (·.1) = (out.map (·.1)).map fun v => k * v := by
+  simp [List.map_map, Function.comp_def, scalePair]
+
+lemma map_snd_scalePair (k : α) (out : List (α × α)) :
+    (out.map (scalePair k)).map (·.2) = (out.map (·.2)).map fun v => k * v := by
+  simp [List.map_map, Function.comp_def, scalePair]
+
+lemma zipWith_div_scale (k : α) (vs ds : List α) :
+    List.zipWith (· / ·) (vs.map fun v => k * v) ds = (List.zipWith (· / ·) vs ds).map fun v => k * v := by
+  rw [List.zipWith_map_left, List.map_zipWith]
+  congr 2
+  funext v d
+  ring
+
+lemma zipWith_div2_scale (k : α) (vs ds : List α) :
+    List.zipWith (fun v d => v / d / 2) (vs.map fun v => k * v) ds
+      = (List.zipWith (fun v d => v / d / 2) vs ds).map fun v => k * v := by
+  rw [List.zipWith_map_left, List.map_zipWith]
+  congr 2
+  funext v d
+  ring
+
+/-- **B7d.** `psd_pygapsdh`: adsorbed volumes multiplied by `k` ⇒ same pore widths; pore volumes, pore areas and the
+distribution `dV/dw` multiplied by `k`. (No guard: the statement is an identity of the recurrences.) -/
+theorem pygapsDH_scale (c : ℕ) (k : α) (vol thick kelvin : List α) :
+    (pygapsDH c (vol.map fun v => k * v) thick kelvin).widths = (pygapsDH c vol thick kelvin).widths ∧
+    (pygapsDH c (vol.map fun v => k * v) thick kelvin).volumes
+      = (pygapsDH c vol thick kelvin).volumes.map (fun v => k * v) ∧
+    (pygapsDH c (vol.map fun v => k * v) thick kelvin).areas
+      = (pygapsDH c vol thick kelvin).areas.map (fun v => k * v) ∧
+    (pygapsDH c (vol.map fun v => k * v) thick kelvin).distribution
+      = (pygapsDH c vol thick kelvin).distribution.map (fun v => k * v) := by
+  simp only [pygapsDH, ← List.map_reverse, diffNeg_scale, zip5_scale]
+  rw [dhLoop_scale c k _ 0 0 (by ring)]
+  simp only [map_fst_scalePair, map_snd_scalePair, zipWith_div_scale, List.map_reverse, true_and]
+
+/-- **B7e.** the shared body of `psd_bjh` / `psd_dollimore_heal` for any linear loop. -/
+theorem radiusMethod_scale (k : α) (loop : List (RRow α) → List (α × α))
+    (hloop : ∀ rows, loop (rows.map (scaleR k)) = (loop rows).map (scalePair k)) (vol thick kelvin : List α) :
+    (radiusMethod loop (vol.map fun v => k * v) thick kelvin).widths = (radiusMethod loop vol thick kelvin).widths ∧
+    (radiusMethod loop (vol.map fun v => k * v) thick kelvin).volumes
+      = (radiusMethod loop vol thick kelvin).volumes.map (fun v => k * v) ∧
+    (radiusMethod loop (vol.map fun v => k * v) thick kelvin).areas
+      = (radiusMethod loop vol thick kelvin).areas.map (fun v => k * v) ∧
+    (radiusMethod loop (vol.map fun v => k * v) thick kelvin).distribution
+      = (radiusMethod loop vol thick kelvin).distribution.map (fun v => k * v) := by
+  simp only [radiusMethod, ← List.map_reverse, diffNeg_scale, zipR_scale, hloop]
+  simp only [map_fst_scalePair, map_snd_scalePair, zipWith_div2_scale, List.map_reverse, true_and]
+
+/-- **B7f.** `psd_bjh`. -/
+theorem bjh_scale (k : α) (vol thick kelvin : List α) :
+    (bjh (vol.map fun v => k * v) thick kelvin).widths = (bjh vol thick kelvin).widths ∧
+    (bjh (vol.map fun v => k * v) thick kelvin).volumes = (bjh vol thick kelvin).volumes.map (fun v => k * v) ∧
+    (bjh (vol.map fun v => k * v) thick kelvin).areas = (bjh vol thick kelvin).areas.map (fun v => k * v) ∧
+    (bjh (vol.map fun v => k * v) thick kelvin).distribution
+      = (bjh vol thick kelvin).distribution.map (fun v => k * v) :=
+  radiusMethod_scale k _ (fun rows => by simpa using bjhLoop_scale k rows []) vol thick kelvin
+
+/-- **B7g.** `psd_dollimore_heal`. -/
+theorem dollimoreHeal_scale (k : α) (vol thick kelvin : List α) :
+    (dollimoreHeal (vol.map fun v => k * v) thick kelvin).widths = (dollimoreHeal vol thick kelvin).widths ∧
+    (dollimoreHeal (vol.map fun v => k * v) thick kelvin).volumes
+      = (dollimoreHeal vol thick kelvin).volumes.map (fun v => k * v) ∧
+    (dollimoreHeal (vol.map fun v => k * v) thick kelvin).areas
+      = (dollimoreHeal vol thick kelvin).areas.map (fun v => k * v) ∧
+    (dollimoreHeal (vol.map fun v => k * v) thick kelvin).distribution
+      = (dollimoreHeal vol thick kelvin).distribution.map (fun v => k * v) :=
+  radiusMethod_scale k _ (fun rows => dollimoreLoop_scale k rows 0 0 0 0 (by ring) (by ring)) vol thick kelvin
+
+lemma cumsum_scale (k : α) (l : List α) (acc acc' : α) (h : acc' = k * acc) :
+    cumsum (l.map fun v => k * v) acc' = (cumsum l acc).map fun v => k * v := by
+  induction l generalizing acc acc' with
+  | nil => rfl
+  | cons x xs ih =>
+    subst h
+    simp only [List.map_cons, cumsum]
+    rw [ih (acc + x) (k * acc + k * x) (by ring)]
+    congr 1; ring
+
+lemma getLastD_scale (k : α) (l : List α) : (l.map fun v => k * v).getLastD 0 = k * l.getLastD 0 := by
+  rw [List.getLastD_eq_getLast?, List.getLastD_eq_getLast?, List.getLast?_map]
+  cases l.getLast? <;> simp
+
+/-- **B7h.** the cumulative pore volume curve of `psd_mesoporous` is multiplied by `k` when pore volumes and adsorbed
+volumes are. -/
+theorem cumulative_scale (k : α) (vols vol : List α) :
+    cumulative (vols.map fun v => k * v) (vol.map fun v => k * v) = (cumulative vols vol).map fun v => k * v := by
+  simp only [cumulative]
+  rw [cumsum_scale k vols 0 0 (by ring), getLastD_scale, getLastD_scale, List.map_map, List.map_map]
+  apply List.map_congr_left
+  intro x _
+  simp only [Function.comp]; ring
+
+/-- **B7i.** the whole dispatch `method` of `psd_mesoporous`: a refusal stays a refusal, a result is scaled. -/
+theorem method_scale (k : α) (name geometry : String) (vol thick kelvin : List α) :
+    (method name geometry (vol.map fun v => k * v) thick kelvin).map
+        (fun r => (r.widths, r.volumes, r.areas, r.distribution))
+      = (method name geometry vol thick kelvin).map
+        (fun r => (r.widths, r.volumes.map (fun v => k * v), r.areas.map (fun v => k * v),
+                   r.distribution.map (fun v => k * v))) := by
+  unfold method
+  split_ifs
+  · cases cLength geometry with
+    | none => rfl
+    | some c =>
+      obtain ⟨h1, h2, h3, h4⟩ := pygapsDH_scale c k vol thick kelvin
+      simp only [Option.map_some, h1, h2, h3, h4]
+  · obtain ⟨h1, h2, h3, h4⟩ := bjh_scale k vol thick kelvin
+    simp only [Option.map_some, h1, h2, h3, h4]
+  · rfl
+  · obtain ⟨h1, h2, h3, h4⟩ := dollimoreHeal_scale k vol thick kelvin
+    simp only [Option.map_some, h1, h2, h3, h4]
+  · rfl
+  · rfl
+
+end Meso
+
+/-! ## B8. micropore bookkeeping (Horvath–Kawazoe tail) -/
+section Micro
+open PgVerif.Model.Micro
+variable {α : Type} [Field α]
+
+lemma diff_scale (k : α) : ∀ l : List α, PgVerif.Model.Micro.diff (l.map fun v => k * v) = (PgVerif.Model.Micro.diff l).map fun v => k * v
+  | [] => rfl
+  | [_] => rfl
+  | a :: b :: r => by
+    have ih := diff_scale k (b :: r)
+    simp only [List.map_cons] at ih ⊢
+    simp only [PgVerif.Model.Micro.diff, List.map_cons, ih]
+    congr 1; ring
+
+/-- **B8a.** the tail of the two HK functions: adsorbed volumes multiplied by `k` ⇒ same (average) pore widths,
+distribution `dV/dw` and cumulative volume multiplied by `k`. -/
+theorem micro_tail_scale (k : α) (widths vol : List α) :
+    (tail widths (vol.map fun v => k * v)).widths = (tail widths vol).widths ∧
+    (tail widths (vol.map fun v => k * v)).distribution = (tail widths vol).distribution.map (fun v => k * v) ∧
+    (tail widths (vol.map fun v => k * v)).cumulative = (tail widths vol).cumulative.map (fun v => k * v) := by
+  simp only [tail, ← List.map_take, ← List.map_drop, diff_scale, zipWith_div_scale, true_and]
+
+/-- **B8b.** the adsorbed liquid volume is linear in the loading. -/
+theorem hk_volume_adsorbed_scale (k n M ρ : ℝ) :
+    hk_volume_adsorbed (k * n) M ρ = k * hk_volume_adsorbed n M ρ := by
+  unfold hk_volume_adsorbed; ring
+
+/-- **B8c.** end to end for the HK tail: loadings multiplied by `k`. -/
+theorem micro_tail_loading_scale (k M ρ : ℝ) (widths ns : List ℝ) :
+    let r := tail widths (ns.map fun n => hk_volume_adsorbed n M ρ)
+    let r' := tail widths ((ns.map fun n => k * n).map fun n => hk_volume_adsorbed n M ρ)
+    r'.widths = r.widths ∧ r'.distribution = r.distribution.map (fun v => k * v) ∧
+    r'.cumulative = r.cumulative.map (fun v => k * v) := by
+  intro r r'
+  have e : (ns.map fun n => k * n).map (fun n => hk_volume_adsorbed n M ρ)
+      = (ns.map fun n => hk_volume_adsorbed n M ρ).map fun v => k * v := by
+    rw [List.map_map, List.map_map]
+    apply List.map_congr_left
+    intro n _
+    exact hk_volume_adsorbed_scale k n M ρ
+  change (tail widths _).widths = _ ∧ (tail widths _).distribution = _ ∧ (tail widths _).cumulative = _
+  rw [e]
+  exact micro_tail_scale k widths _
+
+/-- **B8d.** the coverage used by the Cheng–Yang correction, `n / (1.01 max n)`, is invariant under `n ↦ k n`, `k > 0`
+(an intensive quantity). -/
+theorem coverage_scale {β : Type} [Field β] [LinearOrder β] [IsStrictOrderedRing β] (k c101 : β) (hk : 0 < k)
+    (loading : List β) :
+    coverage c101 (loading.map fun n => k * n) = coverage c101 loading := by
+  have hfold : ∀ (l : List β) (m : β), (l.map fun n => k * n).foldl max (k * m) = k * l.foldl max m := by
+    intro l
+    induction l with
+    | nil => intro m; rfl
+    | cons x xs ih =>
+      intro m
+      simp only [List.map_cons, List.foldl_cons]
+      rw [← mul_max_of_nonneg _ _ hk.le, ih]
+  unfold coverage
+  have hhead : (loading.map fun n => k * n).headD 0 = k * loading.headD 0 := by
+    cases loading <;> simp
+  simp only [hhead, hfold, List.map_map]
+  apply List.map_congr_left
+  intro n _
+  simp only [Function.comp]
+  rw [mul_assoc, mul_div_mul_left _ _ hk.ne']
+
+end Micro
 
 end PgVerif.Props.C15
